@@ -254,6 +254,9 @@ def row_shapes(config, decls, tier="quick"):
         for column in (bad_columns[0], bad_columns[-1]):
             row[column] = CATALOGUE[names[column]][3][0]
         shapes.append(("bad%d+%d" % (bad_columns[0], bad_columns[-1]), row))
+    if len(names) >= 2 and all(CATALOGUE[n][0].get("empty") for n in names):
+        # every field may be empty: a row of empty cells only is an accepted row like any other
+        shapes.append(("all-cells-empty", [""] * len(names)))
     if len(names) >= 3:
         # a row ending in two empty cells (an office suite stores such a run as one repeated cell)
         shapes.append(("tail-empty", list(base[:-2]) + ["", ""]))
